@@ -21,11 +21,29 @@ shrink_candidates = ec.eng_shrink
 
 
 def keep(c):
-    return not c.get("note")
+    return not c.get("note") and c.get("kind") != "skip"
 
 
 def finding_key(c, r):
     return None
+
+def _c17():
+    import importlib
+    return importlib.import_module("props.c17")
+
+
+def prepare(tier, seed):
+    _c17().prepare(tier, seed)       # the CLI family runs the built binary
+
+
+FAMILIES = {"cli": dict(
+    HARNESS="c17", N={"quick": 120, "thorough": 1200}, SHARD=40, CASE_TYPE="case17", CHECK_FN="check_platform_flags_cases",
+    HEADER="From WTF Require Import Model.Validate Model.Text Model.Cli Check.C17.",
+    coq_case=lambda c: _c17().coq_case(c), identity=lambda c: [c.get("args"), c.get("q")],
+    keep=lambda c: c.get("kind") != "skip",
+    sample=lambda c: {"family": "cli", "args": [bytes(a).decode("utf-8", "replace") for a in (c.get("args") or [])][:14], "exit": c.get("exit")},
+)}
+
 
 LEVEL_TEXT = 'Theorem c04_filters (Props/C04.v): every result of SearchUniversal - lexical, NLP or typo fallback - is an entry that satisfies the platform rule as the property words it (Spec/Filters.v) and, in pipeline-only searches, is a pipeline command; for every database, query and option record. Model compared bit for bit with the engine on every case; the same rule is evaluated in Coq on the real answers of 8 runs per case (incl. cached).'
 LEVEL_NOTE = 'Trusted: Coq kernel; platform tags assumed ASCII (EqualFold modelled by ASCII folding); the alias rules (checkPlatformVariant) and tool list are transcribed / read from the built code and exercised on every case; oracles as for C01.'
